@@ -9,6 +9,8 @@ import (
 
 	vestingtypes "github.com/chain4energy/c4e-chain/x/cfevesting/types"
 	sdk "github.com/cosmos/cosmos-sdk/types"
+	authtypes "github.com/cosmos/cosmos-sdk/x/auth/types"
+	authvesting "github.com/cosmos/cosmos-sdk/x/auth/vesting/types"
 	"pgregory.net/rapid"
 )
 
@@ -27,6 +29,7 @@ func TestC17(t *testing.T) {
 		k := v.App.CfevestingKeeper
 		nowS := nsTime(v.NowNs).Unix()
 		model := map[string]*linAcc{}
+		recordedNonVesting := 0
 		var order []string // creation order of vesting accounts
 		var hist []string
 		note := func(f string, a ...interface{}) { hist = append(hist, fmt.Sprintf(f, a...)) }
@@ -72,6 +75,30 @@ func TestC17(t *testing.T) {
 			}
 			order = append(order, addr.String())
 			note("seed account %s %+v", addr, *model[addr.String()])
+		}
+
+		// a genesis file (or the upgrade's address list) may also record addresses that are no continuous
+		// vesting accounts: absent accounts, plain accounts, other vesting account kinds; the summaries skip them
+		nOther := rapid.IntRange(0, 3).Draw(t, "nRecordedNonVesting")
+		for i := 0; i < nOther; i++ {
+			var addr sdk.AccAddress
+			kind := rapid.IntRange(0, 2).Draw(t, fmt.Sprintf("other%d_kind", i))
+			switch kind {
+			case 0:
+				addr = v.NextFresh() // no account at all
+			case 1:
+				addr = KeyAcc(6 + i).Addr // a plain funded account
+			default:
+				addr = v.NextFresh()
+				dva := authvesting.NewDelayedVestingAccount(authtypes.NewBaseAccountWithAddress(addr), sdk.NewCoins(sdk.NewInt64Coin(Denom, 5000)), nowS+100000)
+				v.App.AccountKeeper.SetAccount(v.Ctx, v.App.AccountKeeper.NewAccount(v.Ctx, dva))
+				FundAccount(v.App, v.Ctx, addr, sdk.NewCoins(sdk.NewInt64Coin(Denom, 5000)))
+			}
+			g := rapid.Bool().Draw(t, fmt.Sprintf("other%d_genesis", i))
+			k.AppendVestingAccountTrace(v.Ctx, vestingtypes.VestingAccountTrace{Address: addr.String(), Genesis: g})
+			model[addr.String()] = &linAcc{traced: true, genesis: g, depth: 0, root: "recorded non-vesting address"}
+			recordedNonVesting++
+			note("recorded non-vesting address %s kind=%d genesis=%v", addr, kind, g)
 		}
 
 		check := func(what string) {
@@ -282,6 +309,9 @@ func TestC17(t *testing.T) {
 		}
 		if maxDepthG >= 4 || maxDepthN >= 4 {
 			cl = append(cl, "chain_depth_ge4")
+		}
+		if recordedNonVesting > 0 {
+			cl = append(cl, "recorded_address_that_is_no_continuous_vesting_account")
 		}
 		if upperSeen {
 			cl = append(cl, "recipient_spelled_in_upper_case")
